@@ -209,13 +209,13 @@ def applicable(mut):
     if mut in ('iadd', 'isub'):
         return ('shape', 'units', 'numer', 'denom', 'kind', 'type', 'deriv', 'ro')
     if mut in ('imul', 'itruediv'):
-        return ('shape', 'numer', 'denom', 'kind', 'type', 'deriv', 'ro')
+        return ('shape', 'units', 'numer', 'denom', 'kind', 'type', 'deriv', 'ro')
     if mut in ('ifloordiv', 'imod'):
-        return ('shape', 'numer', 'denom', 'kind', 'type', 'ro')
+        return ('shape', 'units', 'numer', 'denom', 'kind', 'type', 'ro')
     if mut == 'ipow':
         return ('type', 'kind', 'ro')
     if mut in LOGIC:
-        return ('shape', 'type', 'ro')
+        return ('shape', 'numer', 'type', 'ro')
     if mut == 'setitem':
         return ('shape', 'units', 'numer', 'denom', 'type', 'deriv', 'ro', 'index')
     if mut == 'insert_deriv':
@@ -294,8 +294,20 @@ def inject(case, fault, rng):
             d.pop('shape', None)
         return c
     if fault == 'units':
-        if not CLS[t['cls']][3] or not CLS[tgt['cls']][3]:
+        if not CLS[t['cls']][3] and not CLS[tgt['cls']][3] and mut in ('iadd', 'isub') \
+                and tgt['cls'] in ('Quaternion', 'Matrix3'):
+            # an operand of a unit-carrying class with the same item shape (Quaternion += Vector of 4 components)
+            tgt['cls'] = {'Quaternion': 'Vector', 'Matrix3': 'Matrix'}[tgt['cls']]
+        if not CLS[tgt['cls']][3]:
             return None
+        if not CLS[t['cls']][3]:
+            # the target's class disallows units (Matrix3, Quaternion): ANY units on the operand are a fault
+            if mut not in ARITH:
+                return None
+            tgt['units'] = 'km'
+            return c
+        if mut not in ('iadd', 'isub', 'setitem') and mut not in NONMUT:
+            return None               # units multiply / divide: different units are not a fault there
         if t['units'] is None:
             t['units'] = 'km'
         tgt['units'] = 's'
@@ -313,6 +325,8 @@ def inject(case, fault, rng):
                 tgt['kind'] = 'float'
             if not CLS[tgt['cls']][3]:
                 tgt['units'] = None
+        if mut in LOGIC and list(tgt['numer']) + list(tgt['denom']) == list(t['numer']) + list(t['denom']):
+            return None               # the operand's item happens to equal the target's: no fault for &= |= ^=
         return c
     if fault == 'denom':
         if tgt['cls'] == 'Boolean':
